@@ -9,6 +9,9 @@ VERIF = os.path.dirname(os.path.dirname(os.path.abspath(__file__)))
 
 # pid -> (category, technique, level text, level note, design ref)
 CHECKS = {
+    "C01": ("exploration", "boundary-history runtime monitor: simulated device state vs state assigned through public setters (apply) and vs attributes of a fresh second client (refresh); register interval check on concurrent histories",
+            "Every value of every settable field, boundary device ids, both protocol versions, bytes/hex credentials, five segmentation classes of the reply stream, 0..3 unsolicited/duplicate frames before/after the reply, display toggle; concurrent sub-workload with 2..4 clients and random latencies checked against the device's version timeline.",
+            "One recorded known finding (V2 reply packet split across TCP segments) is keyed by mechanism (version 2 and a cut inside a packet) and only suppresses the refresh half of such cases.", "DESIGN.md section 2 C01"),
     "C02": ("exploration", "differential runtime monitor: real codec vs independent reference codec, exhaustive lengths + seeded random",
             "Every frame length 0..255 x boundary device ids enumerated in both directions plus seeded random frames/ids/instants and "
             "LAN.send on a simulated V2 connection; held-on-observed, not a proof.",
